@@ -17,10 +17,13 @@ MANIFEST = {
             "(literals 100, relative tie tolerance 1e-10, //2, 99.99 translated from the source into Gen/Quant.lean): the returned pair are order "
             "statistics sorted[i], sorted[i+lag] with lag = floor(p*n/100), lo <= hi, the closed interval holds >= lag+1 samples, "
             "its width is at most (1+1e-10) times every other lag-pair's width (relative tie tolerance; exactly 0 when some pair has width 0), "
-            "success for every 0<=p, lag<n; ADC: length preserved, every code in [0,2^n-1], at most 2^n distinct outputs, outputs "
+            "success for every 0<=p, lag<n, and shortest_int commutes with every change of units a*x+b, a>0 (shortest_unit_free; whole ADC: "
+            "adc_unit_free_record); ADC: length preserved, every code in [0,2^n-1], at most 2^n distinct outputs, outputs "
             "within [V_min,V_max], in-range samples move by at most half a step, out-of-range samples saturate at the end codes "
-            "(round-half-even, clipping), for every signal with V_min < V_max. Tie: translator + exact differential run of the "
-            "compiled model against shortest_int()/ADC() on data shipped as exact rationals, plus a numpy-free oracle of each clause.",
+            "(round-half-even, clipping), the code map is monotone (a larger sample never gets a smaller code or level), every level is "
+            "a fixed point and every one of the 2^n codes is attained (re-quantising the output changes nothing), codes are invariant and "
+            "levels equivariant under a change of units a*x+b (a>0), for every signal with V_min < V_max. Tie: translator + exact differential run of the "
+            "compiled model against shortest_int()/ADC() on data shipped as exact rationals, plus a numpy-free oracle of each clause (order preservation and power-of-two rescaling judged exactly).",
     "note": "Trusted: Lean kernel, translator tools/extractors/quant.py, harness; np.sort/np.round(half-even)/np.clip semantics are "
             "modelled; the float evaluation of int(n*p/100) equals the exact floor on the generated (n,p) (generator keeps n*p/100 "
             "away from integers unless p is dyadic or 99.99); V_max = V_min (constant record, 0/0) is an excluded point. "
@@ -643,6 +646,20 @@ def run_impl(case):
                         out2 = shortest_int(arg, case["p"])
                         if np.shares_memory(out, out2) or not _same_arrays(snap, out2):
                             notes.append(["result-aliasing", "shortest_int", f"second call gave {np.asarray(out2).tolist()} after the first result was modified, first was {snap.tolist()}"])
+                    # change of units (theorem shortest_unit_free): a power-of-two rescaling of float data is exact at every
+                    # step (sort order, differences, relative tie test), so the interval must be exactly the rescaled one
+                    if isinstance(arg, np.ndarray) and arg.dtype == np.float64 and arg.size and snap.size == 2:
+                        mags = np.abs(arg)
+                        nzm = mags[mags > 0]
+                        if np.all(np.isfinite(mags)) and nzm.size and nzm.min() > 1e-200 and mags.max() < 1e200:
+                            a = 2.0 ** (11 if len(data) % 2 else -5)
+                            try:
+                                outs = np.asarray(shortest_int(arg * a, case["p"]), dtype=float)
+                                if not _same_arrays(outs, snap.astype(float) * a):
+                                    notes.append(["unit-free", "shortest_int", f"data x {a!r} gives {outs.tolist()}, not the rescaled interval "
+                                                  f"{(snap.astype(float) * a).tolist()}"])
+                            except Exception as e:  # noqa
+                                notes.append(["unit-free", "shortest_int", f"call on data x {a!r} failed: {type(e).__name__}: {e}"[:160]])
                     out = snap
                 res.update(status="ok", lo=float(out[0]), hi=float(out[1]), n_out=int(np.size(out)), notes=notes)
                 if before is not None and not np.array_equal(before, arg):
